@@ -92,6 +92,32 @@ func coinsJ(cs sdk.Coins) []interface{} {
 	return out
 }
 
+func proofJ(p sttypes.FileProof) map[string]interface{} {
+	return map[string]interface{}{"prover": p.Prover, "merkle": hex.EncodeToString(p.Merkle), "owner": p.Owner, "start": p.Start, "lastProven": p.LastProven, "chunkToProve": p.ChunkToProve}
+}
+
+func providerJ(p sttypes.Providers) map[string]interface{} {
+	var burned interface{}
+	if b, err := strconv.ParseInt(p.BurnedContracts, 10, 64); err == nil {
+		burned = b
+	}
+	cl := p.AuthClaimers
+	if cl == nil {
+		cl = []string{}
+	}
+	return map[string]interface{}{"address": p.Address, "ip": p.Ip, "totalspace": p.Totalspace, "burned": burned, "creator": p.Creator, "keybase": p.KeybaseIdentity, "claimers": cl}
+}
+
+func payinfoJ(p sttypes.StoragePaymentInfo) map[string]interface{} {
+	return map[string]interface{}{"startT": unixNanoJ(p.Start), "endT": unixNanoJ(p.End), "spaceAvailable": p.SpaceAvailable, "spaceUsed": p.SpaceUsed, "address": p.Address}
+}
+
+func gaugeJ(g sttypes.PaymentGauge) map[string]interface{} {
+	acc, _ := sttypes.GetGaugeAccount(g)
+	id := hex.EncodeToString(g.Id)
+	return map[string]interface{}{"id": id, "startT": unixNanoJ(g.Start), "endT": unixNanoJ(g.End), "coins": coinsJ(g.Coins), "account": acc.String()}
+}
+
 type stState struct {
 	Files         []Pair                 `json:"files"`
 	Files2        []Pair                 `json:"files2"`
@@ -157,25 +183,17 @@ func (c *Chain) storageAbs(users []string) (stState, []string) {
 		if !ok {
 			bad = append(bad, "proof:"+string(kv[0]))
 		}
-		st.Proofs = append(st.Proofs, Pair{kj, map[string]interface{}{"prover": p.Prover, "merkle": hex.EncodeToString(p.Merkle), "owner": p.Owner, "start": p.Start, "lastProven": p.LastProven, "chunkToProve": p.ChunkToProve}})
+		st.Proofs = append(st.Proofs, Pair{kj, proofJ(p)})
 	}
 	for _, kv := range c.RawStore(sttypes.StoreKey, sttypes.ProvidersKeyPrefix) {
 		var p sttypes.Providers
 		cdc.MustUnmarshal(kv[1], &p)
-		var burned interface{}
-		if b, err := strconv.ParseInt(p.BurnedContracts, 10, 64); err == nil {
-			burned = b
-		}
-		cl := p.AuthClaimers
-		if cl == nil {
-			cl = []string{}
-		}
-		st.Providers = append(st.Providers, Pair{strings.TrimSuffix(string(kv[0]), "/"), map[string]interface{}{"address": p.Address, "ip": p.Ip, "totalspace": p.Totalspace, "burned": burned, "creator": p.Creator, "keybase": p.KeybaseIdentity, "claimers": cl}})
+		st.Providers = append(st.Providers, Pair{strings.TrimSuffix(string(kv[0]), "/"), providerJ(p)})
 	}
 	for _, kv := range c.RawStore(sttypes.StoreKey, sttypes.StoragePaymentInfoKeyPrefix) {
 		var p sttypes.StoragePaymentInfo
 		cdc.MustUnmarshal(kv[1], &p)
-		st.Payinfo = append(st.Payinfo, Pair{strings.TrimSuffix(string(kv[0]), "/"), map[string]interface{}{"startT": unixNanoJ(p.Start), "endT": unixNanoJ(p.End), "spaceAvailable": p.SpaceAvailable, "spaceUsed": p.SpaceUsed, "address": p.Address}})
+		st.Payinfo = append(st.Payinfo, Pair{strings.TrimSuffix(string(kv[0]), "/"), payinfoJ(p)})
 	}
 	for _, kv := range c.RawStore(sttypes.StoreKey, sttypes.CollateralKeyPrefix) {
 		var p sttypes.Collateral
@@ -188,7 +206,7 @@ func (c *Chain) storageAbs(users []string) (stState, []string) {
 		cdc.MustUnmarshal(kv[1], &g)
 		acc, _ := sttypes.GetGaugeAccount(g)
 		id := hex.EncodeToString(g.Id)
-		st.Gauges = append(st.Gauges, Pair{id, map[string]interface{}{"id": id, "startT": unixNanoJ(g.Start), "endT": unixNanoJ(g.End), "coins": coinsJ(g.Coins), "account": acc.String()}})
+		st.Gauges = append(st.Gauges, Pair{id, gaugeJ(g)})
 		tracked = append(tracked, acc.String())
 		noteGaugeAcc(acc.String())
 	}
@@ -326,6 +344,8 @@ type storageGen struct {
 	lastPostH int64
 	burst     int // how many more equal purchases follow at once (three and more deposits into one gauge id)
 	noBlock   int // steps during which no block boundary is taken (so that a burst stays in one block)
+	pg        *pager     // page requests of the query records
+	qr        *rand.Rand // a generator of its own for the query records: the message histories of a seed do not depend on them
 }
 
 func (g *storageGen) user() string { return g.users[g.r.Intn(len(g.users))] }
@@ -784,7 +804,7 @@ func runStorage(profile string, seed int64, histories, steps int, out *Emitter) 
 		}
 		c := NewChain(mix.users, []string{"ujkl", "utest"}, mut)
 		seenGaugeAccs = nil
-		g := &storageGen{c: c, r: r, data: map[string]*dataFile{}, mix: mix}
+		g := &storageGen{c: c, r: r, data: map[string]*dataFile{}, mix: mix, qr: rand.New(rand.NewSource(seed*7919 + int64(hi) + 17))}
 		for _, u := range c.Users {
 			g.users = append(g.users, u.String())
 		}
@@ -912,6 +932,15 @@ func runStorage(profile string, seed int64, histories, steps int, out *Emitter) 
 				out.Emit(map[string]interface{}{"mod": "storage", "hist": hi, "i": i, "h": c.H, "now": c.T.UnixNano(), "pre": pre, "op": map[string]interface{}{"setParams": want}, "ok": ok, "post": post, "badKeys": bad, "users": g.users})
 				out.Count(profile+".setParams", ok)
 				continue
+			}
+			if queriesOn && g.qr.Intn(4) == 0 { // a query record: the query server answers on the current state
+				qst, _ := c.storageAbs(g.users)
+				save := g.r
+				g.r = g.qr
+				q, resp, kind := g.queryStep()
+				g.r = save
+				out.Emit(map[string]interface{}{"mod": "query", "sub": "storage", "hist": hi, "i": i, "h": c.H, "now": c.T.UnixNano(), "state": qst, "q": q, "resp": resp})
+				out.Count("query.storage."+kind, resp != "err")
 			}
 			msg, op, fill := g.next()
 			pre, _ := c.storageAbs(g.users)
